@@ -110,6 +110,13 @@ def dump(cell):
     return {"segs": segs, "groups": groups, "props": props}
 
 
+def frac_of(op):
+    """0 and 1 are also passed as Python ints (a legal way to write them) when the op says so"""
+    if op.get("frac_int") and op["frac"] in (0, 4):
+        return op["frac"] // 4
+    return op["frac"] / 4.0
+
+
 def apply(cell, op):
     k = op["op"]
     segs = cell.morphology.segments
@@ -118,14 +125,14 @@ def apply(cell, op):
         cell.add_segment(prox=[x, 0, 0, 1] if op["prox"] else None, dist=[x + 1, 0, 0, 1],
                          seg_id=op["seg_id"], name=op["name"],
                          parent=segs[op["parent"]] if op["parent"] is not None else None,
-                         fraction_along=op["frac"] / 4.0, group_id=op["group"], use_convention=op["conv"],
+                         fraction_along=frac_of(op), group_id=op["group"], use_convention=op["conv"],
                          seg_type=op["ty"], reorder_segment_groups=op["reorder"],
                          optimise_segment_groups=op["optimise"])
     elif k == "unbranched":
         x = len(segs)
         pts = [[x + j, 0, 0, 1] for j in range(op["npoints"])]
         cell.add_unbranched_segments(pts, parent=segs[op["parent"]] if op["parent"] is not None else None,
-                                     fraction_along=op["frac"] / 4.0, group_id=op["group"],
+                                     fraction_along=frac_of(op), group_id=op["group"],
                                      use_convention=op["conv"], seg_type=op["ty"],
                                      reorder_segment_groups=op["reorder"], optimise_segment_groups=op["optimise"])
     elif k == "group":
@@ -199,6 +206,7 @@ def run_case(case):
         cell.setup_nml_cell(use_convention=False)
     trace = []
     failed = False
+    keys0 = set(vars(cell).keys()) | set("morphology." + k for k in vars(cell.morphology).keys())
     for op in case["ops"]:
         try:
             apply(cell, op)
@@ -217,6 +225,19 @@ def run_case(case):
             final["resolved"] = {g: query(cell, g) for g in ["all", "soma_group", "axon_group", "dendrite_group"]}
             final["resolved_user"] = {g.id: query(cell, g.id) for g in cell.morphology.segment_groups}
             final.update(verdicts(cell))
+            # ids in use are asked for again (last, so that a wrongly accepted one disturbs nothing above)
+            ids = [s.id for s in cell.morphology.segments]
+            probes = []
+            for z in [x for x in dict.fromkeys([max(ids), min(ids), ids[0], ids[-1]] + ids) if x][:6] if ids else []:
+                try:
+                    cell.add_segment(prox=None, dist=[0, 0, 0, 1], seg_id=z, parent=cell.morphology.segments[0],
+                                     use_convention=False, optimise_segment_groups=False)
+                    probes.append([z, {"returned": True}])
+                except BaseException as e:  # noqa
+                    probes.append([z, {"err": classify(e)}])
+            final["probes"] = probes
+            keys1 = set(vars(cell).keys()) | set("morphology." + k for k in vars(cell.morphology).keys())
+            final["new_attributes"] = sorted(keys1 - keys0)
         except BaseException as e:  # noqa
             final["err"] = classify(e)
     return {"trace": trace, "final": final}
